@@ -67,13 +67,25 @@ def gen_history(rng, fam, flavor, length):
         ev += [f"set:{cp('/inner/name')}:{cp(chr(34) + 'n' * rng.choice([10, 40, 60, 64]) + chr(34))}"]
         if rng.random() < 0.5:
             ev += [f"optsome{rng.randrange(256)}"]
-    ev += [f"adv{rng.choice([2000, 2500, 1999, 3000])}", f"un{rng.choice([3, 12, 25, 40])}"]
+    ev += [f"adv{rng.choice([2000, 2500, 1999, 3000])}"]
+    if not small and rng.random() < 0.3:
+        # a request racing with the expiry of the dump timeout (handled in state Wait / Init)
+        for _ in range(rng.choice([1, 1, 2])):
+            root = rng.choice(sorted(F.internal) + [p for p, _ in F.leaves])
+            rt = rng.choice([cp(RESP), cp(RESP), "-"])
+            ev.append(f"pub:{cp(PREFIX + '/settings' + root)}:e:{rt}:{rng.randrange(256):02x}:0:0")
+            ev.append(f"un{rng.choice([1, 1, 2])}")
+    ev += [f"un{rng.choice([3, 12, 25, 40])}"]
     for _ in range(length):
         r = rng.random()
         if r < 0.4 and small:
             ev.append(f"un{rng.choice([1, 3])}")
         elif r < 0.4:
             ev.append(gen_request(rng, F, flavor))
+            if rng.random() < 0.25:
+                # a burst: several requests queued between two update() calls (one is handled per call)
+                for _ in range(rng.choice([1, 1, 2])):
+                    ev.append(gen_request(rng, F, flavor))
             ev.append(f"un{rng.choice([1, 2, 3, 5, 12])}")
             if rng.random() < 0.35:
                 # a burst of list / dump requests on internal nodes while a multipart answer may be pending
@@ -337,6 +349,11 @@ def analyze(events, recs, fam):
                 else:
                     for p in tail:
                         fails["C07"].append(f"response without a request asking for it: {p['topic']} {p['code']} {p['payload']!r}")
+                # the client must not become idle in an epoch without having done its unrequested full dump
+                if r["st"] == "single" and epoch is not None and epoch["sub"] and not epoch["dumped"] and not epoch.get("flagged"):
+                    epoch["flagged"] = True
+                    fails["C13"].append(f"client idle at t={now} although the full dump of this connection never happened")
+                    fails["C10"].append(f"the initial dump after connecting never happened (client idle at t={now})")
                 if "sessreset" in tr:
                     mp = None
                     epoch = new_epoch()
